@@ -102,7 +102,7 @@ Theorem C10_fid_sites :
   ClientGen.release_fid_policy = "refused" /\ ClientGen.methods = spec_methods /\
   src_Client_releaseFID = ["if _, ok := err.(linux.Errno); ok { c.fidPool.Put(id) }"].
 Proof.
-  destruct fid_sites as (A & B & C & D & E & F). repeat split; auto. exact gen_is_spec.
+  destruct fid_sites as (A & B & C & D & E & F). repeat split; auto; try exact gen_is_spec.
 Qed.
 
 (** ---- multiplexing ---- *)
